@@ -58,6 +58,16 @@ def gen_case(rng):
     else:
         body = rng.choice(["# Title\n\ntext \"q\" it's... done", "- a\n- b\n\n1. x\n", "> quote\n\n```\ncode\n```\n", "a\x0cb c", "x y"])
     closed = rng.random() < 0.8
+    # layouts of the body that the text API normalises before formatting (dedent, leading blank lines): the same must happen
+    # after a frontmatter block
+    lay = rng.random()
+    if lay < 0.15 and body:
+        ind = rng.choice(["    ", "  ", "\t"])
+        body = "\n".join(ind + l if l.strip() else l for l in body.split("\n"))
+    elif lay < 0.25 and body:
+        body = rng.choice(["\n", "\n\n", "  \n"]) + body
+    elif lay < 0.30 and body:
+        body = body + rng.choice(["\n\n\n", "  ", "\n  \n"])
     return {"blanks": blanks, "open": open_l, "lines": lines, "close": close_l, "eol": eol, "body": body, "closed": closed}
 
 
